@@ -377,6 +377,35 @@ def run_history(
         return _run_history(link, protocol, spec, raw, policy, run_id, holder, obs_list, problems, facts, settle)
     finally:
         RT.HOOKS.pop(run_id, None)
+        _drop_skew(run_id)
+
+
+_SKEW: dict[tuple[str, int], Any] = {}
+
+
+def _skew_proxy(link: Link, spec: dict[str, Any], mid: int, run_id: str) -> Any:
+    """A client proxy for the same transport built from a Protocol whose method #mid has one extra int parameter."""
+    import copy
+
+    from vgi_rpc.rpc import RpcConnection
+
+    from lib import programs
+
+    key = (run_id, mid)
+    if key not in _SKEW:
+        sk = copy.deepcopy(spec)
+        sk["methods"][mid]["params"] = [*sk["methods"][mid]["params"], {"name": "zz_skew", "type": "int"}]
+        proto, _impl, _mod = programs.build_service(sk, f"{run_id}-skew{mid}")
+        _SKEW[key] = proto
+    return RpcConnection(_SKEW[key], link.transport, on_log=link.logs.append).__enter__()  # never exited: the transport is shared
+
+
+def _drop_skew(run_id: str) -> None:
+    from lib import programs
+
+    for key in [k for k in _SKEW if k[0] == run_id]:
+        _SKEW.pop(key)
+        programs.dispose_service(f"{run_id}-skew{key[1]}")
 
 
 def _run_history(
@@ -444,7 +473,10 @@ def _run_history(
                     with contextlib.suppress(Exception):
                         it.close()  # type: ignore[attr-defined]
             else:
-                session = getattr(link.proxy, m["name"])(**call["args"])
+                if call.get("skew"):
+                    session = getattr(_skew_proxy(link, spec, call["mid"], run_id), m["name"])(**call["args"], zz_skew=1)
+                else:
+                    session = getattr(link.proxy, m["name"])(**call["args"])
                 obs["header"] = transports.header_dict(getattr(session, "header", None))
                 try:
                     for rows in call["inputs"]:
@@ -499,9 +531,11 @@ def _run_history(
             outcome = "init_error" if init_failed else "error"
             if kind == "exchange" and not init_failed and call.get("bad_input") == len(obs["batches"]):
                 outcome = "rejected_input"
+            if call.get("skew"):
+                outcome = "refused_request"
         obs["logs"] = [transports.norm_log(x) for x in link.logs[n0:]]
         obs_list.append(obs)
-        tag = f"{kind}/{outcome}" + ("" if outcome in ("init_error", "rejected_input") else f"/end={end}") + ("/raw" if obs["raw"] else "")
+        tag = f"{kind}/{outcome}" + ("" if outcome in ("init_error", "rejected_input", "refused_request") else f"/end={end}") + ("/raw" if obs["raw"] else "")
         settle(tag, f"after call#{ci} ({kind} {m['name']}, end={end}, {outcome})")
         holder.check_stable(f"after call#{ci}")
     # end of history: release everything still held; the segment must be empty
